@@ -156,7 +156,7 @@ def mask_kernel_cases(rng, tier, n_random, inner_cells=4, hmax=3, wmax=3, stride
 
 def _gen_image(rng, tier):
     # most discriminating first: asymmetric signed kernels, non-square, smallest frames
-    for mask, ks in mask_kernel_cases(rng, tier, gens.budget(tier, 25, 600)):
+    for mask, ks in mask_kernel_cases(rng, tier, gens.budget(tier, 300, 3000)):
         yield {"mask": mask, "kernel": signed_kernel(rng, ks), "image": signed_image(rng, mask.shape),
                "junk": gens.reals(rng, mask.shape, -1e6, 1e6, special=False)}
 
@@ -216,7 +216,7 @@ def convolve_image_equals_full_convolution(mask, kernel, image, junk):
 
 
 def _gen_basis(rng, tier):
-    for mask, ks in mask_kernel_cases(rng, tier, gens.budget(tier, 8, 200), inner_cells=4, hmax=2, wmax=3):
+    for mask, ks in mask_kernel_cases(rng, tier, gens.budget(tier, 100, 1500), inner_cells=4, hmax=2, wmax=3):
         yield {"mask": mask, "kernel": signed_kernel(rng, ks, special=False)}
 
 
@@ -255,7 +255,7 @@ def operator_extraction_on_basis_images(mask, kernel):
 def _gen_even(rng, tier):
     shapes = [(a, b) for a in range(1, 7) for b in range(1, 7) if a % 2 == 0 or b % 2 == 0]
     for ks in shapes:
-        for _ in range(gens.budget(tier, 1, 6)):
+        for _ in range(gens.budget(tier, 8, 60)):
             inner = random_inner(rng, 2, 2)
             pad = (ks[0] // 2 + 1, ks[1] // 2 + 1)
             m = np.ones((inner.shape[0] + 2 * pad[0], inner.shape[1] + 2 * pad[1]), dtype=bool)
@@ -313,7 +313,7 @@ def _gen_matrix(kind):
             yield {"mask": np.array([[False]]), "kernel": np.array([[2.0]]), "matrix": np.array([[-1.0]])}
             yield {"mask": embed(np.array([[False, False]]), (1, 3)), "kernel": np.array([[1.0, 2.0, 3.0]]),
                    "matrix": np.array([[1.0, -1.0], [-0.5, 0.0]])}
-        for mask, ks in mask_kernel_cases(rng, tier, gens.budget(tier, 20, 500)):
+        for mask, ks in mask_kernel_cases(rng, tier, gens.budget(tier, 300, 3000)):
             n = int((~mask).sum())
             yield {"mask": mask, "kernel": signed_kernel(rng, ks), "matrix": random_matrix(rng, n, rng.randint(1, 3), kind)}
     return gen
@@ -379,7 +379,7 @@ def convolve_mapping_matrix_tiny_entries(mask, kernel, matrix):
 
 
 def _gen_scipy(rng, tier):
-    for mask, ks in mask_kernel_cases(rng, tier, gens.budget(tier, 25, 500)):
+    for mask, ks in mask_kernel_cases(rng, tier, gens.budget(tier, 300, 3000)):
         yield {"mask": mask, "kernel": signed_kernel(rng, ks), "image": signed_image(rng, mask.shape)}
 
 
@@ -418,7 +418,7 @@ def whole_frame_kernel_convolution_agrees(mask, kernel, image):
 
 def _gen_sim(rng, tier):
     first = True
-    for mask, ks in mask_kernel_cases(rng, tier, gens.budget(tier, 15, 300)):
+    for mask, ks in mask_kernel_cases(rng, tier, gens.budget(tier, 300, 3000)):
         signed = (not first) and rng.random() < 0.6
         first = False
         if signed:
